@@ -123,6 +123,7 @@ def emit_subject_methods(d: Decl):
     any_cmp = False
     if "PartialEq" in der:
         c.append("o.outer.eq = Some(nvrt::side_eq(&ta, &tb)); o.inner.eq = Some(nvrt::side_eq(&ia, &ib));")
+        c.append("o.outer.eq_same = Some(nvrt::side_eq(&ta, &ta)); o.inner.eq_same = Some(nvrt::side_eq(&ia, &ia));")
         any_cmp = True
     if "PartialOrd" in der and "PartialEq" in der:
         c.append("o.outer.pord = Some(nvrt::side_pord(&ta, &tb)); o.inner.pord = Some(nvrt::side_pord(&ia, &ib));")
@@ -194,7 +195,9 @@ def emit_serde_arb(d: Decl):
             methods.append("fn docs_for(&self, f: nvrt::Fmt, p: nvrt::Pos, raw: &nvrt::Value) -> Option<Vec<Vec<u8>>> { if p == nvrt::Pos::MapKey { return None; } Some(nvrt::serde_mon::docs_for_noord::<G>(f, p, raw)) }")
         methods.append("fn ser(&self, f: nvrt::Fmt, raw: &nvrt::Value) -> Option<nvrt::SerObs> { nvrt::serde_mon::ser::<G>(f, raw) }")
         methods.append("fn ser_trace(&self, raw: &nvrt::Value) -> Option<(Vec<String>, Vec<String>)> { nvrt::serde_mon::trace::<G>(raw) }")
-        methods.append("fn de_probe(&self) -> Option<Vec<String>> { Some(nvrt::serde_mon::probe::<G>()) }")
+        methods.append("fn de_probe(&self) -> Option<(Vec<String>, Vec<(String, nvrt::Value)>)> { Some(nvrt::serde_mon::probe::<G>()) }")
+        if d.inner.fam in ("int", "float", "string"):
+            methods.append("fn de_seq_form(&self, raw: &nvrt::Value) -> Option<nvrt::DeObs> { Some(nvrt::serde_mon::seq_form::<G>(raw)) }")
     if "Arbitrary" in der:
         methods.append("""fn arb(&self, bytes: &[u8]) -> Option<nvrt::ArbObs> {
             Some(match nvrt::guarded(|| { let mut u = ::arbitrary::Unstructured::new(bytes); <TT as ::arbitrary::Arbitrary>::arbitrary(&mut u) }) {
